@@ -33,7 +33,7 @@ func (g *gen) callTo(t *Type, depth int) Expr {
 	}
 	var cands []*Func
 	for _, f := range g.funcs {
-		if f.Ret != nil && f.Ret.Same(t) && g.canCall(f) {
+		if f.Ret != nil && f.Ret.Same(t) && g.canCall(f) && !(f.MustUse && g.noMustUse) {
 			cands = append(cands, f)
 		}
 	}
@@ -319,6 +319,17 @@ func (g *gen) convToInt(k Kind, depth int) Expr {
 	return g.guardConst(c, func() { c.Args[0] = g.runtimeOf(Scalar(src)) })
 }
 
+func hasDeterminant(e Expr) bool {
+	found := false
+	WalkExpr(e, func(x Expr) bool {
+		if b, ok := x.(*Builtin); ok && b.Name == "determinant" {
+			found = true
+		}
+		return !found
+	})
+	return found
+}
+
 // floatLeafish yields a float whose bits are determined (a load or literal),
 // suitable as a bitcast source.
 func (g *gen) floatLeafish(depth int) Expr { return g.leaf(TF32, depth) }
@@ -430,8 +441,13 @@ func (g *gen) floatExpr(depth int) Expr {
 		b := &Binary{Op: op, L: g.expr(t, depth-1), R: g.expr(t, depth-1), T: t}
 		return g.guardConst(b, func() { b.R = g.runtimeOf(t) })
 	case r < 56:
+		x := g.expr(t, depth-1)
+		if hasDeterminant(x) && g.f.off("determinant.negate") {
+			// known finding: SPIR-V types determinant() as its matrix argument, so negating it fails
+			return x
+		}
 		g.class("unary-:f32")
-		return &Unary{Op: "-", X: g.expr(t, depth-1), T: t}
+		return &Unary{Op: "-", X: x, T: t}
 	case r < 72:
 		return g.floatBuiltin(t, depth, false)
 	case r < 82:
@@ -558,6 +574,10 @@ func (g *gen) vecExpr(t *Type, depth int) Expr {
 		for i := range comps {
 			comps[i] = g.intn(sn, "swc")
 		}
+		if _, ok := src.(*Deref); ok && g.f.off("ptr.deref.swizzle") {
+			// known finding: a multi-component swizzle of a dereferenced pointer parameter fails in SPIR-V
+			return g.vecConstruct(t, depth)
+		}
 		g.class("swizzle:multi")
 		return &Swizzle{X: src, Comps: comps, Set: g.intn(2, "swset"), T: t}
 	case r < 75:
@@ -576,8 +596,12 @@ func (g *gen) vecExpr(t *Type, depth int) Expr {
 			return g.intBuiltin(t, depth)
 		default:
 			if g.chance(20, "vfneg") {
+				x := g.expr(t, depth-1)
+				if hasDeterminant(x) && g.f.off("determinant.negate") {
+					return x
+				}
 				g.class("unary-:vec<f32>")
-				return &Unary{Op: "-", X: g.expr(t, depth-1), T: t}
+				return &Unary{Op: "-", X: x, T: t}
 			}
 			return g.floatBuiltin(t, depth, false)
 		}
@@ -727,18 +751,22 @@ func (g *gen) matExpr(t *Type, depth int) Expr {
 	case r < 60:
 		op := []string{"+", "-"}[g.intn(2, "mop")]
 		g.class("bin" + op + ":mat")
-		return &Binary{Op: op, L: g.expr(t, depth-1), R: g.expr(t, depth-1), T: t}
+		return g.matBinGuard(&Binary{Op: op, L: g.expr(t, depth-1), R: g.expr(t, depth-1), T: t})
 	case r < 72:
 		g.class("mat*scalar")
 		if g.chance(50, "msc") {
-			return &Binary{Op: "*", L: g.expr(t, depth-1), R: g.expr(TF32, depth-1), T: t}
+			return g.matBinGuard(&Binary{Op: "*", L: g.expr(t, depth-1), R: g.expr(TF32, depth-1), T: t})
 		}
-		return &Binary{Op: "*", L: g.expr(TF32, depth-1), R: g.expr(t, depth-1), T: t}
+		return g.matBinGuard(&Binary{Op: "*", L: g.expr(TF32, depth-1), R: g.expr(t, depth-1), T: t})
 	case r < 84:
 		kk := 2 + g.intn(3, "mk")
 		g.class("mat*mat")
-		return &Binary{Op: "*", L: g.expr(Mat(kk, t.R, F32), depth-1), R: g.expr(Mat(t.N, kk, F32), depth-1), T: t}
+		return g.matBinGuard(&Binary{Op: "*", L: g.expr(Mat(kk, t.R, F32), depth-1), R: g.expr(Mat(t.N, kk, F32), depth-1), T: t})
 	case r < 94:
+		if t.N != t.R && g.f.off("transpose.nonsquare") {
+			// known finding: transpose() of a non-square matrix is typed as its argument
+			return g.leaf(t, depth)
+		}
 		g.class("builtin:transpose")
 		return &Builtin{Name: "transpose", Args: []Expr{g.expr(Mat(t.R, t.N, F32), depth-1)}, T: t}
 	default:
@@ -747,6 +775,21 @@ func (g *gen) matExpr(t *Type, depth int) Expr {
 		}
 		return g.leaf(t, depth)
 	}
+}
+
+// matBinGuard keeps a matrix-valued binary expression away from the known
+// finding "a binary operator with constant operands and a matrix result folds
+// to a mistyped value" (tag const-fold.mat-binary) by making one operand a
+// run-time value.
+func (g *gen) matBinGuard(b *Binary) Expr {
+	if !IsConstExpr(b.L) || !IsConstExpr(b.R) || !g.f.off("const-fold.mat-binary") {
+		return b
+	}
+	if g.inConst > 0 {
+		return g.constOf(b.T)
+	}
+	b.R = g.runtimeOf(b.R.Type())
+	return b
 }
 
 func (g *gen) aggExpr(t *Type, depth int) Expr {
@@ -762,9 +805,12 @@ func (g *gen) aggExpr(t *Type, depth int) Expr {
 				args = append(args, g.expr(t.Elem, depth-1))
 			}
 			c := &Construct{T: t, Args: args}
-			if g.chance(20, "ainfer") && !g.f.off("construct.infer") && t.Elem.K != TArray {
-				c.Infer = true
-				// inference needs concrete argument types: all our expressions are concrete
+			if g.chance(20, "ainfer") && !g.f.off("construct.infer") {
+				// inference needs concrete argument types: all our expressions are concrete.
+				// known finding: array(...) of structs / arrays is rejected ("unknown type: array")
+				if ek := t.Elem.K; (ek != TArray && ek != TStruct) || !g.f.off("construct.infer.array-composite") {
+					c.Infer = true
+				}
 			}
 			return c
 		}
